@@ -18,3 +18,62 @@ Theorem C17_export_attrs : forall (f : field) (u : option string),
   ((fnvdim f <= 1)%Z -> xdims xa = dims (reg m) /\ xshape xa = n m /\ xvdims xa = None).
 Proof. exact export_attrs. Qed.
 Print Assumptions C17_export_attrs.
+
+(* the exported spatial coordinates are the C01 cell centres pmin + (j + 1/2) * cell, n per axis *)
+Theorem C17_export_centres : forall (f : field) (u : option string), wf_field f ->
+  let m := fmesh f in
+  xcoords (to_xarray f u) = cells m /\
+  length (cells m) = length (pmin (reg m)) /\
+  forall a, (a < length (pmin (reg m)))%nat ->
+    length (nth a (cells m) []) = Z.to_nat (nth a (n m) 1%Z) /\
+    forall j, (0 <= j < nth a (n m) 1%Z)%Z ->
+      nth (Z.to_nat j) (nth a (cells m) []) 0 ==
+      nth a (pmin (reg m)) 0 + (inject_Z j + (1 # 2)) * nth a (cell m) 0.
+Proof. exact export_centres. Qed.
+Print Assumptions C17_export_centres.
+
+Example C17_wf_field_nonvacuous : wf_field ex_vector /\ wf_field ex_scalar_labelled.
+Proof. exact (conj ex_vector_wf ex_scalar_wf). Qed.
+Print Assumptions C17_wf_field_nonvacuous.
+
+(* import (export f) is accepted and returns the same mesh (corners, names, units, tolerance, n),
+   component count, dtype tag and values, for every well-formed field of any size; the labels
+   come back for vector fields and for unlabelled scalar fields.  (The field's own unit is not
+   restored: the imported field has unit None.) *)
+Theorem C17_roundtrip_partial : forall (f : field) (u : option string), wf_field f ->
+  exists g, from_xarray (to_xarray f u) = OK g /\ field_same f g /\ funit g = None /\
+            ((1 < fnvdim f)%Z \/ fvdims f = None -> fvdims g = fvdims f).
+Proof. exact roundtrip. Qed.
+Print Assumptions C17_roundtrip_partial.
+
+(* the missing part of the full statement is false of the faithful model: a labelled scalar
+   field loses its label (known finding C17-scalar-label-lost) *)
+Theorem C17_roundtrip_scalar_label_refuted :
+  exists f g, wf_field f /\ from_xarray (to_xarray f None) = OK g /\ fvdims g <> fvdims f.
+Proof. exact roundtrip_scalar_label_refuted. Qed.
+Print Assumptions C17_roundtrip_scalar_label_refuted.
+
+(* rejections *)
+Theorem C17_reject_missing_nvdim : forall xa : dataarray,
+  a_nvdim xa = None -> from_xarray xa = Err KeyE.
+Proof. exact reject_no_nvdim. Qed.
+Print Assumptions C17_reject_missing_nvdim.
+
+Theorem C17_reject_missing_component_axis : forall (xa : dataarray) (k : Z),
+  a_nvdim xa = Some k -> (1 < k)%Z -> ~ In vdims_name (xdims xa) -> is_ok (from_xarray xa) = false.
+Proof. exact reject_no_vdims_axis. Qed.
+Print Assumptions C17_reject_missing_component_axis.
+
+(* uneven spacing beyond numpy.allclose(diff, mean, atol=0): some spacing differs from the mean
+   spacing by more than 1e-5 of it *)
+Theorem C17_reject_uneven : forall (xa : dataarray) (v : list Q) (d : Q),
+  In v (xcoords xa) -> In d (diffs v) ->
+  np_atol + np_rtol * Qabs (qmean (diffs v)) < Qabs (d - qmean (diffs v)) ->
+  is_ok (from_xarray xa) = false.
+Proof. exact reject_uneven. Qed.
+Print Assumptions C17_reject_uneven.
+
+Theorem C17_reject_single_cell_without_cell : forall (xa : dataarray) (v : list Q),
+  a_cell xa = None -> In v (xcoords xa) -> (length v < 2)%nat -> is_ok (from_xarray xa) = false.
+Proof. exact reject_single_cell_no_cell. Qed.
+Print Assumptions C17_reject_single_cell_without_cell.
